@@ -74,6 +74,30 @@ def _assigned_names(stmts_):
     return out
 
 
+_NEVER_NONE = (ast.BinOp, ast.Compare, ast.List, ast.Tuple, ast.Dict, ast.Set, ast.JoinedStr, ast.ListComp, ast.BoolOp)
+
+
+def _known_truth(test):
+    """True/False if the (substituted) test is decided syntactically, else None"""
+    if isinstance(test, ast.Constant):
+        return bool(test.value)
+    if isinstance(test, ast.UnaryOp) and isinstance(test.op, ast.Not):
+        k = _known_truth(test.operand)
+        return None if k is None else not k
+    if isinstance(test, ast.Compare) and len(test.ops) == 1 and isinstance(test.ops[0], (ast.Is, ast.IsNot)) \
+            and isinstance(test.comparators[0], ast.Constant) and test.comparators[0].value is None:
+        l = test.left
+        is_none = None
+        if isinstance(l, ast.Constant):
+            is_none = l.value is None
+        elif isinstance(l, _NEVER_NONE):
+            is_none = False
+        if is_none is None:
+            return None
+        return is_none if isinstance(test.ops[0], ast.Is) else not is_none
+    return None
+
+
 class Summary:
     def __init__(self):
         self.guards = []   # test expressions whose truth raises
@@ -118,6 +142,18 @@ def summarize(func, mutators=None):
                 continue
             if isinstance(st, ast.Expr) and isinstance(st.value, ast.Call):
                 cn = call_name(st.value)
+                c_ = st.value
+                # list building: `xs.append(e)` / `xs.extend([..])` on a local bound to a list literal
+                if isinstance(c_.func, ast.Attribute) and isinstance(c_.func.value, ast.Name) and c_.func.attr in ("append", "extend") \
+                        and len(c_.args) == 1 and not c_.keywords and isinstance(env.get(c_.func.value.id), ast.List):
+                    cur = env[c_.func.value.id]
+                    arg = subst(c_.args[0], env)
+                    if c_.func.attr == "append":
+                        env[c_.func.value.id] = ast.List(elts=list(cur.elts) + [arg], ctx=ast.Load())
+                        continue
+                    if isinstance(arg, (ast.List, ast.Tuple)):
+                        env[c_.func.value.id] = ast.List(elts=list(cur.elts) + list(arg.elts), ctx=ast.Load())
+                        continue
                 if cn in mutators:
                     args = [subst(a, env) for a in st.value.args]
                     for k in mutators[cn]:
@@ -130,6 +166,13 @@ def summarize(func, mutators=None):
                 continue
             if isinstance(st, ast.If):
                 test = subst(st.test, env)
+                known = _known_truth(test)
+                if known is not None:
+                    # the test is decided by what is bound (e.g. `acc is None` right after `acc = None`)
+                    env, r = run(st.body if known else st.orelse, env)
+                    if r is not None:
+                        return env, r
+                    continue
                 if ends_in_raise(st.body) and not st.orelse:
                     sm.guards.append(test)
                     continue
@@ -236,7 +279,42 @@ def _assume(c, t, val):
     return tuple(_assume(x, t, val) for x in c)
 
 
+_SEQ_FUNCS = {"np.concatenate", "np.stack", "np.hstack", "np.vstack", "np.column_stack"}
+
+
+def _hoist(c, depth=0):
+    """conditionals to the top: f(.., (if t a b), ..) -> if t f(.., a, ..) f(.., b, ..)"""
+    if not isinstance(c, tuple) or depth > 6:
+        return c
+    if c and c[0] == "if" and len(c) == 4:
+        t, a, b = c[1], _hoist(c[2], depth), _hoist(c[3], depth)
+        a, b = _assume(a, t, True), _assume(b, t, False)
+        return a if a == b else ("if", t, a, b)
+    kids = [_hoist(x, depth) for x in c]
+    for k, x in enumerate(kids):
+        if isinstance(x, tuple) and len(x) == 4 and x[0] == "if" and k > 0:
+            t = x[1]
+            left = tuple(kids[:k]) + (x[2],) + tuple(kids[k + 1:])
+            right = tuple(kids[:k]) + (x[3],) + tuple(kids[k + 1:])
+            a, b = _hoist(_assume(left, t, True), depth + 1), _hoist(_assume(right, t, False), depth + 1)
+            return a if a == b else ("if", t, a, b)
+    return tuple(kids)
+
+
+def _seqfix(c):
+    if not isinstance(c, tuple):
+        return c
+    c = tuple(_seqfix(x) for x in c)
+    if len(c) >= 3 and c[0] == "call" and c[1] in _SEQ_FUNCS and isinstance(c[2], tuple) and c[2] and c[2][0] in ("list", "tuple"):
+        c = c[:2] + (("seq",) + c[2][1:],) + c[3:]
+    return c
+
+
 def canon(e):
+    return _seqfix(_hoist(_canon(e)))
+
+
+def _canon(e):
     if isinstance(e, ast.Name):
         return e.id
     if isinstance(e, ast.Constant):
@@ -245,16 +323,16 @@ def canon(e):
         d = ast.unparse(e)
         if d in _FUNC_ALIASES:
             return _FUNC_ALIASES[d]
-        return ("attr", canon(e.value), e.attr)
+        return ("attr", _canon(e.value), e.attr)
     if isinstance(e, ast.UnaryOp):
         if isinstance(e.op, ast.USub):
-            return _neg(canon(e.operand))
+            return _neg(_canon(e.operand))
         if isinstance(e.op, ast.UAdd):
-            return canon(e.operand)
+            return _canon(e.operand)
         if isinstance(e.op, ast.Not):
-            c = canon(e.operand)
+            c = _canon(e.operand)
             return c[1] if isinstance(c, tuple) and c[0] == "not" else ("not", c)
-        return ("~", canon(e.operand))
+        return ("~", _canon(e.operand))
     if isinstance(e, ast.BinOp):
         if isinstance(e.op, (ast.Add, ast.Sub)):
             terms = []
@@ -267,7 +345,7 @@ def canon(e):
                 elif isinstance(x, ast.UnaryOp) and isinstance(x.op, ast.USub):
                     flat(x.operand, -sign)
                 else:
-                    c = canon(x)
+                    c = _canon(x)
                     if isinstance(c, tuple) and c and c[0] == "+":
                         for t in c[1:]:
                             terms.append(t if sign > 0 else _neg(t))
@@ -283,7 +361,7 @@ def canon(e):
                 if isinstance(x, ast.BinOp) and isinstance(x.op, ast.Mult):
                     flatm(x.left); flatm(x.right)
                 else:
-                    c = canon(x)
+                    c = _canon(x)
                     if isinstance(c, tuple) and c and c[0] == "neg":
                         sign[0] = -sign[0]; c = c[1]
                     if isinstance(c, tuple) and c and c[0] == "*":
@@ -302,7 +380,7 @@ def canon(e):
                 elif isinstance(x, ast.Call) and call_name(x) == "np.matmul" and len(x.args) == 2 and not x.keywords:
                     flatmm(x.args[0]); flatmm(x.args[1])
                 else:
-                    parts.append(canon(x))
+                    parts.append(_canon(x))
             flatmm(e)
             return ("@",) + tuple(parts)
         if isinstance(e.op, (ast.BitAnd, ast.BitOr)):
@@ -313,15 +391,15 @@ def canon(e):
                 if isinstance(x, ast.BinOp) and isinstance(x.op, k):
                     flatb(x.left); flatb(x.right)
                 else:
-                    parts.append(canon(x))
+                    parts.append(_canon(x))
             flatb(e)
             return ("&" if k is ast.BitAnd else "|",) + tuple(sorted(parts, key=repr))
-        return (type(e.op).__name__, canon(e.left), canon(e.right))
+        return (type(e.op).__name__, _canon(e.left), _canon(e.right))
     if isinstance(e, ast.BoolOp):
-        return ("and" if isinstance(e.op, ast.And) else "or",) + tuple(sorted((canon(v) for v in e.values), key=repr))
+        return ("and" if isinstance(e.op, ast.And) else "or",) + tuple(sorted((_canon(v) for v in e.values), key=repr))
     if isinstance(e, ast.Compare):
         if len(e.ops) == 1:
-            a, b, op = canon(e.left), canon(e.comparators[0]), e.ops[0]
+            a, b, op = _canon(e.left), _canon(e.comparators[0]), e.ops[0]
             if isinstance(op, ast.Gt):
                 return ("<", b, a)
             if isinstance(op, ast.GtE):
@@ -337,9 +415,9 @@ def canon(e):
                 return ("not", ("is", a, b))
             if isinstance(op, ast.Is):
                 return ("is", a, b)
-        return ("cmp", tuple(type(o).__name__ for o in e.ops), canon(e.left)) + tuple(canon(c) for c in e.comparators)
+        return ("cmp", tuple(type(o).__name__ for o in e.ops), _canon(e.left)) + tuple(_canon(c) for c in e.comparators)
     if isinstance(e, ast.IfExp):
-        t, a, b = canon(e.test), canon(e.body), canon(e.orelse)
+        t, a, b = _canon(e.test), _canon(e.body), _canon(e.orelse)
         if isinstance(t, tuple) and t and t[0] == "not":
             t, a, b = t[1], b, a
         a, b = _assume(a, t, True), _assume(b, t, False)
@@ -348,8 +426,8 @@ def canon(e):
         return ("if", t, a, b)
     if isinstance(e, ast.Call):
         fn = e.func
-        args = [canon(a) for a in e.args]
-        kws = tuple(sorted(((k.arg or "**", canon(k.value)) for k in e.keywords), key=repr))
+        args = [_canon(a) for a in e.args]
+        kws = tuple(sorted(((k.arg or "**", _canon(k.value)) for k in e.keywords), key=repr))
         if isinstance(fn, ast.Attribute):
             d = ast.unparse(fn)
             base_is_mod = isinstance(fn.value, ast.Name) and fn.value.id in ("np", "numpy", "linalg", "math") or \
@@ -357,25 +435,27 @@ def canon(e):
             if base_is_mod:
                 name = _FUNC_ALIASES.get(d, d)
                 if name == "np.matmul" and len(args) == 2 and not kws:
-                    return canon(ast.BinOp(left=e.args[0], op=ast.MatMult(), right=e.args[1]))
+                    return _canon(ast.BinOp(left=e.args[0], op=ast.MatMult(), right=e.args[1]))
+                if name in _SEQ_FUNCS and args and isinstance(args[0], tuple) and args[0] and args[0][0] in ("list", "tuple"):
+                    args[0] = ("seq",) + args[0][1:]
                 return ("call", name) + tuple(args) + (kws,)
             if fn.attr in _METHOD_TO_FUNC:
-                return ("call", _METHOD_TO_FUNC[fn.attr], canon(fn.value)) + tuple(args) + (kws,)
-            return ("mcall", canon(fn.value), fn.attr) + tuple(args) + (kws,)
+                return ("call", _METHOD_TO_FUNC[fn.attr], _canon(fn.value)) + tuple(args) + (kws,)
+            return ("mcall", _canon(fn.value), fn.attr) + tuple(args) + (kws,)
         name = ast.unparse(fn)
         name = _FUNC_ALIASES.get(name, name)
         return ("call", name) + tuple(args) + (kws,)
     if isinstance(e, ast.Subscript):
-        return ("[]", canon(e.value), canon(e.slice))
+        return ("[]", _canon(e.value), _canon(e.slice))
     if isinstance(e, ast.Slice):
-        lo = canon(e.lower) if e.lower is not None else None
+        lo = _canon(e.lower) if e.lower is not None else None
         if lo == ("const", 0):
             lo = None
-        return ("slice", lo, canon(e.upper) if e.upper is not None else None, canon(e.step) if e.step is not None else None)
+        return ("slice", lo, _canon(e.upper) if e.upper is not None else None, _canon(e.step) if e.step is not None else None)
     if isinstance(e, (ast.Tuple, ast.List)):
-        return ("tuple" if isinstance(e, ast.Tuple) else "list",) + tuple(canon(x) for x in e.elts)
+        return ("tuple" if isinstance(e, ast.Tuple) else "list",) + tuple(_canon(x) for x in e.elts)
     if isinstance(e, ast.Starred):
-        return ("*arg", canon(e.value))
+        return ("*arg", _canon(e.value))
     return ("raw", ast.unparse(e))
 
 
